@@ -42,14 +42,20 @@ println(plain(%d, 3, 2, 1))
 	return program{ID: fmt.Sprintf("plain/d%d", d), Kind: "plain", Depth: d, Src: src}
 }
 
-// flatProgram: the calibration control. Only the top-level frame is ever pending: nothing has to be rebased when
-// the stack grows. If even this program deviates at an initial size, that size is below what a single frame needs.
+// flatProgram: the calibration control. No recursion, no closures, no generators; only the top-level frame is ever pending, so nothing needs rebasing when the stack grows; its frames are as
+// large as the largest frame of the other programs (4 parameters, 7 locals, nested temporaries, a 4-argument call).
+// If even this program deviates at an initial size, that size is below what a single frame needs before the next
+// growth check (the VM only checks at method calls and guarantees 30 % of the current size).
 func flatProgram() program {
-	src := `def leaf(a: Int, b: Int): Int
-  x := a + b
-  y := x * 2
-  z := y - a
-  x + y + z
+	src := `def leaf(n: Int, a: Int, b: Int, c: Int): Int
+  x := a + 1
+  y := b + 2
+  z := c + 3
+  u := x * 2
+  v := y * 2
+  w := z * 2
+  k := (y + (z * (u - (v + (w - (x + n)))))) % 1000
+  (k + x - y + z + u - v + w) % 1000003
 end
 s := 0
 t := 1
@@ -57,8 +63,8 @@ u := 2
 i := 0
 while i < 50
   i += 1
-  s += leaf(i, t) + u
-  t = (t * 3 + leaf(s, u)) % 1009
+  s += leaf(i, t, u, s) + u
+  t = (t * 3 + leaf(s % 1000, t + 1, u + 2, (s + (t * (u - (i + 3)))) % 100)) % 1009
   u = (u + i) % 7
 end
 println(s)
